@@ -21,6 +21,9 @@ use serde_json::{Value, json};
 use tokio_util::codec::Decoder;
 use verif_lib_harness::samples;
 
+static PROGRESS: std::sync::atomic::AtomicU64 = std::sync::atomic::AtomicU64::new(0);
+static CURRENT: std::sync::Mutex<Vec<u8>> = std::sync::Mutex::new(Vec::new());
+
 thread_local! {
     static LAST_PANIC: std::cell::RefCell<String> = const { std::cell::RefCell::new(String::new()) };
 }
@@ -126,6 +129,11 @@ impl Dec for RtrDec {
 /// One decoder call with the contract checked.
 fn call(d: &mut dyn Dec, buf: &mut BytesMut) -> R {
     let before = buf.to_vec();
+    PROGRESS.fetch_add(1, std::sync::atomic::Ordering::Relaxed);
+    if let Ok(mut c) = CURRENT.try_lock() {
+        c.clear();
+        c.extend_from_slice(&before[..before.len().min(400)]);
+    }
     let r = catch_unwind(AssertUnwindSafe(|| d.call(buf)));
     match r {
         Err(_) => R::Panic,
@@ -609,9 +617,38 @@ fn main() {
             eprintln!("harness panic: {info}");
         }
     }));
-    match args[1].as_str() {
-        "stream" => stream(&args[2], &args[3], &args[4]),
-        "sweep" => sweep(args[2].parse().unwrap(), args[3].parse().unwrap(), &args[4]),
+    // the decoders run on a worker thread; a call that never returns ("wedge") is reported instead of hanging the check
+    let a2 = args.clone();
+    let worker = std::thread::spawn(move || match a2[1].as_str() {
+        "stream" => stream(&a2[2], &a2[3], &a2[4]),
+        "sweep" => sweep(a2[2].parse().unwrap(), a2[3].parse().unwrap(), &a2[4]),
         x => panic!("mode {x}"),
+    });
+    let outp = if args[1] == "stream" { args[4].clone() } else { args[4].clone() };
+    let mut last = 0u64;
+    let mut stale = 0u32;
+    loop {
+        std::thread::sleep(std::time::Duration::from_millis(200));
+        if worker.is_finished() {
+            if worker.join().is_err() {
+                std::process::exit(101);
+            }
+            return;
+        }
+        let p = PROGRESS.load(std::sync::atomic::Ordering::Relaxed);
+        if p == last {
+            stale += 1;
+        } else {
+            stale = 0;
+            last = p;
+        }
+        if stale >= 50 {
+            // 10 s inside one decoder call
+            let cur = hex(&CURRENT.lock().map(|c| c.clone()).unwrap_or_default());
+            let mut f = std::fs::OpenOptions::new().create(true).write(true).truncate(true).open(&outp).expect("open output");
+            writeln!(f, "{}", json!({"kind": "wedge", "what": "a decoder call does not return (loops without consuming input)", "proto": args[2].clone(), "hex": cur, "fs": [], "fed": 0, "k": 0})).unwrap();
+            writeln!(f, "{}", json!({"summary": {"wedged": true}})).unwrap();
+            std::process::exit(0);
+        }
     }
 }
